@@ -185,6 +185,17 @@ Definition read_body_to_vec (c : conn) : body_res * conn :=
 Definition u64_max : N := 18446744073709551615.
 Definition sat_succ (m : N) : N := if m =? u64_max then m else m + 1.
 
+(* read_http_unsized_body_to_file after the file was created: copy_async(take(reader, lim)), then
+   `if max_len < len { BodyTooLong }`.  [lim] = max_len.saturating_add(1) in the code as it is now;
+   before the repair of D7 it was max_len + 1, which wraps to 0 for u64::MAX in release builds. *)
+Definition copy_unknown (lim max_len : N) (i : cin) : body_res * cin :=
+  let a := cin_avail i in
+  let k := N.min lim (N.of_nat (length a)) in
+  let i' := cin_consume (N.to_nat k) i in
+  if (N.of_nat (length a) <? lim) && in_err (ci_in i) then (BR_Err Truncated, i')
+  else if max_len <? k then (BR_Err BodyTooLong, i')
+  else (BR_File (firstn (N.to_nat k) a), i').
+
 Definition read_body_to_file (c : conn) (dir_ok : bool) (max_len : N) : body_res * conn :=
   match c_rs c with
   | RS_Head => (BR_Err BodyNotAvailable, c)
@@ -211,15 +222,8 @@ Definition read_body_to_file (c : conn) (dir_ok : bool) (max_len : N) : body_res
             | (None, c1) =>
                 if negb dir_ok then (BR_Err ErrorSavingFile, set_rs c1 RS_Shutdown (c_in c1))
                 else
-                  (* copy at most max_len+1 bytes, then compare *)
-                  let a := cin_avail (c_in c1) in
-                  let lim := sat_succ max_len in
-                  let k := N.min lim (N.of_nat (length a)) in
-                  let i' := cin_consume (N.to_nat k) (c_in c1) in
-                  if (N.of_nat (length a) <? lim) && in_err (ci_in (c_in c1))
-                  then (BR_Err Truncated, set_rs c1 RS_Shutdown i')
-                  else if max_len <? k then (BR_Err BodyTooLong, set_rs c1 RS_Shutdown i')
-                  else (BR_File (firstn (N.to_nat k) a), set_rs c1 RS_Shutdown i')
+                  let '(r, i') := copy_unknown (sat_succ max_len) max_len (c_in c1) in
+                  (r, set_rs c1 RS_Shutdown i')
             end
         end
   end.
